@@ -24,8 +24,10 @@ import (
 	"fmt"
 	"io"
 	"os"
+	"reflect"
 	"sort"
 	"strings"
+	"time"
 
 	beacon "github.com/oasisprotocol/oasis-core/go/beacon/api"
 	"github.com/oasisprotocol/oasis-core/go/common"
@@ -46,6 +48,9 @@ import (
 	tmcrypto "github.com/oasisprotocol/oasis-core/go/consensus/cometbft/crypto"
 	"github.com/oasisprotocol/oasis-core/go/consensus/genesis"
 	registry "github.com/oasisprotocol/oasis-core/go/registry/api"
+	roothashApi "github.com/oasisprotocol/oasis-core/go/consensus/cometbft/apps/roothash/api"
+	"github.com/oasisprotocol/oasis-core/go/roothash/api/message"
+	scheduler "github.com/oasisprotocol/oasis-core/go/scheduler/api"
 	staking "github.com/oasisprotocol/oasis-core/go/staking/api"
 
 	"verifharness/internal/coqout"
@@ -69,6 +74,21 @@ type NodeD struct {
 	VRF  int    `json:"vrf"`
 	TLS  int    `json:"tls"`
 	Exp  uint64 `json:"exp"`
+	// Roles is the node roles mask (0 in a case description = validator, for old replays);
+	// Rts the runtime pool indices the descriptor lists.
+	Roles int   `json:"roles,omitempty"`
+	Rts   []int `json:"rts,omitempty"`
+}
+
+// RtD describes a runtime descriptor: Kind 1 compute / 2 key manager, Gov 1 entity /
+// 2 runtime / 3 consensus, WL nil = any node, else the entity whitelist.
+type RtD struct {
+	ID   int   `json:"id"`
+	Ent  int   `json:"ent"`
+	Kind int   `json:"kind"`
+	Gov  int   `json:"gov"`
+	WL   []int `json:"wl,omitempty"`
+	HasWL bool `json:"has_wl,omitempty"`
 }
 
 type Op struct {
@@ -83,6 +103,8 @@ type Op struct {
 	Rt      int    `json:"rt,omitempty"`
 	Epoch   uint64 `json:"epoch,omitempty"`
 	ID      int    `json:"id,omitempty"`
+	Caller  int    `json:"caller,omitempty"` // regrt: staking account, 2*k = key k, 2*r+1 = runtime r
+	Runtime *RtD   `json:"runtime,omitempty"`
 	Moved   string `json:"moved,omitempty"` // generator annotation (histogram only)
 }
 
@@ -140,8 +162,78 @@ func idx(pk signature.PublicKey) int {
 	return 777777
 }
 
+const nRts = 3 // runtime pool 1..3; 3 carries the key-manager namespace flag
+
 func rtID(i int) common.Namespace {
-	return common.NewTestNamespaceFromSeed([]byte(fmt.Sprintf("verif C17 runtime %d", i)), 0)
+	var flags common.NamespaceFlag
+	if i >= 3 {
+		flags = common.NamespaceKeyManager
+	}
+	return common.NewTestNamespaceFromSeed([]byte(fmt.Sprintf("verif C17 runtime %d", i)), flags)
+}
+
+func rtIdx(id common.Namespace) int {
+	for i := 1; i <= nRts+1; i++ {
+		if rtID(i) == id {
+			return i
+		}
+	}
+	return 666666
+}
+
+func roles(d *NodeD) int {
+	if d.Roles == 0 {
+		return 8
+	}
+	if d.Roles < 0 {
+		return 0
+	}
+	return d.Roles
+}
+
+func buildRuntime(d *RtD) *registry.Runtime {
+	rt := &registry.Runtime{
+		Versioned:       cbor.NewVersioned(registry.LatestRuntimeDescriptorVersion),
+		ID:              rtID(d.ID),
+		EntityID:        pub(d.Ent),
+		Kind:            registry.RuntimeKind(d.Kind),
+		GovernanceModel: registry.RuntimeGovernanceModel(d.Gov),
+		Deployments:     []*registry.VersionInfo{{}},
+	}
+	if d.Kind == 1 {
+		rt.Executor = registry.ExecutorParameters{GroupSize: 1, RoundTimeout: 20, MaxMessages: 32}
+		rt.TxnScheduler = registry.TxnSchedulerParameters{BatchFlushTimeout: time.Second, MaxBatchSize: 1, MaxBatchSizeBytes: 1024, ProposerTimeout: 2 * time.Second}
+		rt.Constraints = map[scheduler.CommitteeKind]map[scheduler.Role]registry.SchedulingConstraints{
+			scheduler.KindComputeExecutor: {
+				scheduler.RoleWorker:       {MinPoolSize: &registry.MinPoolSizeConstraint{Limit: 1}},
+				scheduler.RoleBackupWorker: {MinPoolSize: &registry.MinPoolSizeConstraint{Limit: 0}},
+			},
+		}
+	}
+	if d.HasWL {
+		wl := map[signature.PublicKey]registry.EntityWhitelistConfig{}
+		for _, e := range d.WL {
+			wl[pub(e)] = registry.EntityWhitelistConfig{}
+		}
+		rt.AdmissionPolicy = registry.RuntimeAdmissionPolicy{EntityWhitelist: &registry.EntityWhitelistRuntimeAdmissionPolicy{Entities: wl}}
+	} else {
+		rt.AdmissionPolicy = registry.RuntimeAdmissionPolicy{AnyNode: &registry.AnyNodeRuntimeAdmissionPolicy{}}
+	}
+	rt.Genesis.StateRoot.Empty()
+	return rt
+}
+
+func rtDescOf(rt *registry.Runtime) RtD {
+	d := RtD{ID: rtIdx(rt.ID), Ent: idx(rt.EntityID), Kind: int(rt.Kind), Gov: int(rt.GovernanceModel)}
+	if wl := rt.AdmissionPolicy.EntityWhitelist; wl != nil {
+		d.HasWL = true
+		d.WL = []int{}
+		for e := range wl.Entities {
+			d.WL = append(d.WL, idx(e))
+		}
+		sort.Ints(d.WL)
+	}
+	return d
 }
 
 // ---------- the implementation under test ----------
@@ -177,7 +269,10 @@ func newWorld() *world {
 			staking.KindRuntimeKeyManager: zero, staking.KindKeyManagerChurp: zero,
 		},
 	}))
-	must(w.state.SetConsensusParameters(w.ctx, &registry.ConsensusParameters{MaxNodeExpiration: maxExp}))
+	must(w.state.SetConsensusParameters(w.ctx, &registry.ConsensusParameters{
+		MaxNodeExpiration: maxExp, DebugAllowTestRuntimes: true, DebugDeployImmediately: true, MaxRuntimeDeployments: 20,
+		EnableRuntimeGovernanceModels: map[registry.RuntimeGovernanceModel]bool{registry.GovernanceEntity: true, registry.GovernanceRuntime: true},
+	}))
 	must(beaconState.NewMutableState(w.ctx.State()).SetConsensusParameters(w.ctx, &beacon.ConsensusParameters{Backend: beacon.BackendInsecure}))
 	must(consensusState.NewMutableState(w.ctx.State()).SetConsensusParameters(w.ctx, &genesis.Parameters{FeatureVersion: &version.Version{Major: 100}}))
 	return w
@@ -199,13 +294,24 @@ func buildNode(d *NodeD) *node.Node {
 		TLS: node.TLSInfo{PubKey: pub(d.TLS)},
 		VRF: node.VRFInfo{ID: pub(d.VRF)},
 	}
-	n.AddRoles(node.RoleValidator)
+	n.Roles = node.RolesMask(roles(d))
+	for _, r := range d.Rts {
+		n.Runtimes = append(n.Runtimes, &node.Runtime{ID: rtID(r)})
+	}
 	return n
 }
 
 func descOf(n *node.Node) NodeD {
 	return NodeD{ID: idx(n.ID), Ent: idx(n.EntityID), Cons: idx(n.Consensus.ID), P2P: idx(n.P2P.ID),
-		VRF: idx(n.VRF.ID), TLS: idx(n.TLS.PubKey), Exp: uint64(n.Expiration)}
+		VRF: idx(n.VRF.ID), TLS: idx(n.TLS.PubKey), Exp: uint64(n.Expiration), Roles: int(n.Roles), Rts: nodeRts(n)}
+}
+
+func nodeRts(n *node.Node) []int {
+	var l []int
+	for _, r := range n.Runtimes {
+		l = append(l, rtIdx(r.ID))
+	}
+	return l
 }
 
 func signersOf(ixs []int) []signature.Signer {
@@ -236,6 +342,12 @@ func errCode(err error) string {
 		return "CEntityHasNodes"
 	case errors.Is(err, registry.ErrEntityHasRuntimes):
 		return "CEntityHasRuntimes"
+	case errors.Is(err, registry.ErrForbidden):
+		return "CForbidden"
+	case errors.Is(err, registry.ErrRuntimeUpdateNotAllowed):
+		return "CRuntimeUpdateNotAllowed"
+	case errors.Is(err, registry.ErrNoSuchRuntime):
+		return "CNoSuchRuntime"
 	case errors.Is(err, registry.ErrInvalidArgument):
 		return "CInvalidArgument"
 	}
@@ -312,6 +424,25 @@ func (w *world) apply(o Op) (code string, info string) {
 		}
 		tx := registry.NewRegisterNodeTx(0, nil, sig)
 		return errCode(w.execTx(o.Txs, func(ctx *abciAPI.Context) error { return w.app.ExecuteTx(ctx, tx) })), ""
+	case "regrt":
+		rt := buildRuntime(o.Runtime)
+		if o.Caller%2 == 0 {
+			tx := registry.NewRegisterRuntimeTx(0, nil, rt)
+			return errCode(w.execTx(o.Caller/2, func(ctx *abciAPI.Context) error { return w.app.ExecuteTx(ctx, tx) })), ""
+		}
+		// a runtime message: the caller is the runtime's own account
+		base := w.appState.NewContext(abciAPI.ContextDeliverTx)
+		defer base.Close()
+		txCtx := base.NewTransaction()
+		defer txCtx.Close()
+		_, err := w.app.ExecuteMessage(txCtx.WithCallerAddress(staking.NewRuntimeAddress(rtID(o.Caller/2))), abciAPI.Message{
+			Kind: roothashApi.RuntimeMessageRegistry, Data: &message.RegistryMessage{UpdateRuntime: rt}})
+		if err == nil {
+			txCtx.Commit()
+		}
+		return errCode(err), ""
+	case "suspendrt":
+		return errCode(w.state.SuspendRuntime(w.ctx, rtID(o.Rt))), ""
 	case "epoch":
 		w.cfg.CurrentEpoch = beacon.EpochTime(o.Epoch)
 		w.cfg.EpochChanged = true
@@ -334,12 +465,60 @@ type dump struct {
 	EntReg   map[int]bool
 	HasNodes map[int]bool
 	HasRts   map[int]bool
-	Claims   map[int][]int
+	Claims   map[int][]int // per entity account: flat [code, #thresholds, kinds...], codes ascending
+	RtClaims map[int][]int // per runtime account
+	Rts      map[int]*RtD  // registered runtimes (active or suspended)
+	RtSusp   map[int]bool
+	Epoch    uint64
+}
+
+// claimsOf renders the claims of an account: entity claim 0, node claims id+1,
+// runtime claims 1000+r, each followed by the number of thresholds and their kinds.
+func claimsOf(acct *staking.Account) []int {
+	type ent struct {
+		code  int
+		kinds []int
+	}
+	var l []ent
+	for c, ths := range acct.Escrow.StakeAccumulator.Claims {
+		code := 555555
+		if c == registry.StakeClaimRegisterEntity {
+			code = 0
+		}
+		for i := 1; i <= poolSize; i++ {
+			if c == registry.StakeClaimForNode(pub(i)) {
+				code = i + 1
+			}
+		}
+		for r := 1; r <= nRts+1; r++ {
+			if c == registry.StakeClaimForRuntime(rtID(r)) {
+				code = 1000 + r
+			}
+		}
+		var ks []int
+		for _, t := range ths {
+			if t.Global != nil {
+				ks = append(ks, int(*t.Global))
+			} else {
+				ks = append(ks, 50)
+			}
+		}
+		l = append(l, ent{code, ks})
+	}
+	sort.Slice(l, func(i, j int) bool { return l[i].code < l[j].code })
+	out := []int{}
+	for _, e := range l {
+		out = append(out, e.code, len(e.kinds))
+		out = append(out, e.kinds...)
+	}
+	return out
 }
 
 func (w *world) dump() *dump {
-	d := &dump{EntNodes: map[int][]int{}, Ents: map[int][]int{}, EntReg: map[int]bool{}, HasNodes: map[int]bool{}, HasRts: map[int]bool{}, Claims: map[int][]int{}}
+	d := &dump{EntNodes: map[int][]int{}, Ents: map[int][]int{}, EntReg: map[int]bool{}, HasNodes: map[int]bool{}, HasRts: map[int]bool{}, Claims: map[int][]int{},
+		RtClaims: map[int][]int{}, Rts: map[int]*RtD{}, RtSusp: map[int]bool{}}
 	ctx := w.ctx
+	d.Epoch = uint64(w.cfg.CurrentEpoch)
 	nodes, err := w.state.Nodes(ctx)
 	must(err)
 	for _, n := range nodes {
@@ -390,22 +569,25 @@ func (w *world) dump() *dump {
 		d.HasRts[e] = hr
 		acct, err := w.stake.Account(ctx, staking.NewAddress(pub(e)))
 		must(err)
-		cl := []int{}
-		for c := range acct.Escrow.StakeAccumulator.Claims {
-			code := 555555
-			if c == registry.StakeClaimRegisterEntity {
-				code = 0
-			} else {
-				for i := 1; i <= poolSize; i++ {
-					if c == registry.StakeClaimForNode(pub(i)) {
-						code = i + 1
-					}
-				}
+		d.Claims[e] = claimsOf(acct)
+	}
+	for r := 1; r <= nRts; r++ {
+		rt, err := w.state.Runtime(ctx, rtID(r))
+		if err == nil {
+			x := rtDescOf(rt)
+			d.Rts[r] = &x
+		} else if errors.Is(err, registry.ErrNoSuchRuntime) {
+			if rt, err = w.state.SuspendedRuntime(ctx, rtID(r)); err == nil {
+				x := rtDescOf(rt)
+				d.Rts[r] = &x
+				d.RtSusp[r] = true
 			}
-			cl = append(cl, code)
+		} else {
+			panic(err)
 		}
-		sort.Ints(cl)
-		d.Claims[e] = cl
+		acct, err := w.stake.Account(ctx, staking.NewRuntimeAddress(rtID(r)))
+		must(err)
+		d.RtClaims[r] = claimsOf(acct)
 	}
 	return d
 }
@@ -429,7 +611,7 @@ func b2i(b bool) int {
 func (d *dump) coq() string {
 	var rows []string
 	for _, n := range d.Nodes {
-		rows = append(rows, ints([]int{n.ID, n.Ent, n.Cons, n.P2P, n.VRF, n.TLS, int(n.Exp)}))
+		rows = append(rows, ints(append([]int{n.ID, n.Ent, n.Cons, n.P2P, n.VRF, n.TLS, int(n.Exp), n.Roles}, n.Rts...)))
 	}
 	rows = append(rows, ints(d.Sub), ints(d.Addr))
 	for e := 1; e <= nEnts; e++ {
@@ -450,6 +632,27 @@ func (d *dump) coq() string {
 	rows = append(rows, ints(hn), ints(hr))
 	for e := 1; e <= nEnts; e++ {
 		rows = append(rows, ints(append([]int{e}, d.Claims[e]...)))
+	}
+	for r := 1; r <= nRts; r++ {
+		rt := d.Rts[r]
+		if rt == nil {
+			rows = append(rows, ints([]int{r, 0}))
+			continue
+		}
+		st := 1
+		if d.RtSusp[r] {
+			st = 2
+		}
+		row := []int{r, st, rt.Ent, rt.Kind, rt.Gov}
+		if rt.HasWL {
+			row = append(append(row, 1), rt.WL...)
+		} else {
+			row = append(row, 0)
+		}
+		rows = append(rows, ints(row))
+	}
+	for r := 1; r <= nRts; r++ {
+		rows = append(rows, ints(append([]int{2000 + r}, d.RtClaims[r]...)))
 	}
 	return "[" + strings.Join(rows, "; ") + "]"
 }
@@ -516,14 +719,30 @@ func indexCheck(d *dump, layerTx bool) string {
 			}
 			cl := []int{}
 			if d.EntReg[e] {
-				cl = append(cl, 0)
+				cl = append(cl, 0, 1, 0)
 			}
 			for _, id := range want {
-				cl = append(cl, id+1)
+				ks := impliedNodeKinds(d.node(id))
+				cl = append(append(cl, id+1, len(ks)), ks...)
 			}
-			sort.Ints(cl)
+			cl = append(cl, impliedRtClaims(d, 2*e)...)
 			if ints(cl) != ints(d.Claims[e]) {
-				return fmt.Sprintf("stake claims of entity %d are %v but the registrations imply %v", e, d.Claims[e], cl)
+				return fmt.Sprintf("stake claims of entity %d are %v but the registrations imply %v ([claim, #thresholds, kinds...])", e, d.Claims[e], cl)
+			}
+			// runtime-by-entity index
+			owns := false
+			for r := 1; r <= nRts; r++ {
+				owns = owns || (d.Rts[r] != nil && d.Rts[r].Ent == e)
+			}
+			if d.HasRts[e] != owns {
+				return fmt.Sprintf("HasEntityRuntimes(%d) = %v but the runtime records say %v", e, d.HasRts[e], owns)
+			}
+		}
+	}
+	if layerTx {
+		for r := 1; r <= nRts; r++ {
+			if want := impliedRtClaims(d, 2*r+1); ints(want) != ints(d.RtClaims[r]) {
+				return fmt.Sprintf("stake claims of runtime account %d are %v but the registrations imply %v", r, d.RtClaims[r], want)
 			}
 		}
 	}
@@ -535,6 +754,54 @@ func indexCheck(d *dump, layerTx bool) string {
 		}
 	}
 	return ""
+}
+
+// impliedNodeKinds: threshold kinds a node registration implies (validator 1,
+// compute 2, observer 3, key manager 4; per listed runtime: key manager, compute, observer).
+func impliedNodeKinds(n *NodeD) []int {
+	ks := []int{}
+	if n.Roles&8 != 0 {
+		ks = append(ks, 1)
+	}
+	seen := map[int]bool{}
+	for _, r := range n.Rts {
+		if seen[r] {
+			continue
+		}
+		seen[r] = true
+		if n.Roles&4 != 0 {
+			ks = append(ks, 4)
+		}
+		if n.Roles&1 != 0 {
+			ks = append(ks, 2)
+		}
+		if n.Roles&2 != 0 {
+			ks = append(ks, 3)
+		}
+	}
+	return ks
+}
+
+// impliedRtClaims: runtime claims of a staking account (2*e entity, 2*r+1 runtime).
+func impliedRtClaims(d *dump, acct int) []int {
+	out := []int{}
+	for r := 1; r <= nRts; r++ {
+		rt := d.Rts[r]
+		if rt == nil {
+			continue
+		}
+		a := -1
+		switch rt.Gov {
+		case 1:
+			a = 2 * rt.Ent
+		case 2:
+			a = 2*r + 1
+		}
+		if a == acct {
+			out = append(out, 1000+r, 1, 4+rt.Kind)
+		}
+	}
+	return out
 }
 
 func contains(l []int, x int) bool {
@@ -566,7 +833,7 @@ func authorityCheck(o Op, code string, before, after *dump) string {
 	}
 	for id := range ids {
 		b, a := before.node(id), after.node(id)
-		if (b == nil) == (a == nil) && (b == nil || *b == *a) {
+		if (b == nil) == (a == nil) && (b == nil || reflect.DeepEqual(*b, *a)) {
 			continue
 		}
 		if a == nil {
@@ -595,6 +862,62 @@ func authorityCheck(o Op, code string, before, after *dump) string {
 		}
 		if b != nil && (b.Ent != a.Ent || b.Cons != a.Cons) {
 			return fmt.Sprintf("node %d changed its entity or consensus key in an update", id)
+		}
+		for _, r := range a.Rts {
+			rt := before.Rts[r]
+			if rt == nil {
+				return fmt.Sprintf("node %d registered for runtime %d which does not exist", id, r)
+			}
+			if rt.HasWL && !contains(rt.WL, a.Ent) {
+				return fmt.Sprintf("node %d of entity %d admitted to runtime %d whose whitelist is %v", id, a.Ent, r, rt.WL)
+			}
+		}
+		if b != nil && b.Exp >= before.Epoch {
+			for _, r := range b.Rts {
+				if !contains(a.Rts, r) {
+					return fmt.Sprintf("active node %d dropped runtime %d in an update", id, r)
+				}
+			}
+		}
+	}
+	for r := 1; r <= nRts; r++ {
+		b, a := before.Rts[r], after.Rts[r]
+		if reflect.DeepEqual(b, a) {
+			if before.RtSusp[r] != after.RtSusp[r] {
+				switch {
+				case o.K == "suspendrt" && o.Rt == r && after.RtSusp[r]:
+				case o.K == "regnode" && contains(o.Node.Rts, r) && !after.RtSusp[r]:
+				default:
+					return fmt.Sprintf("suspension state of runtime %d changed by operation %s", r, o.K)
+				}
+			}
+			continue
+		}
+		if a == nil {
+			return fmt.Sprintf("runtime record %d removed by operation %s", r, o.K)
+		}
+		if o.K != "regrt" || o.Runtime.ID != r {
+			return fmt.Sprintf("runtime record %d changed by operation %s", r, o.K)
+		}
+		ctl := a // who controls: the previous descriptor if there was one
+		if b != nil {
+			ctl = b
+		}
+		want := -1
+		switch ctl.Gov {
+		case 1:
+			want = 2 * ctl.Ent
+		case 2:
+			want = 2*r + 1
+		}
+		if o.Caller != want {
+			return fmt.Sprintf("runtime record %d changed by caller account %d, controlling account is %d", r, o.Caller, want)
+		}
+		if b != nil && (b.Kind != a.Kind || (b.Gov != a.Gov && !(b.Gov == 1 && a.Gov == 2))) {
+			return fmt.Sprintf("runtime %d changed its kind or made a forbidden governance transition", r)
+		}
+		if before.RtSusp[r] != after.RtSusp[r] {
+			return fmt.Sprintf("suspension state of runtime %d changed by its re-registration", r)
 		}
 	}
 	for e := 1; e <= nEnts; e++ {
@@ -666,7 +989,7 @@ type runResult struct {
 }
 
 func coqNode(n *NodeD) string {
-	return fmt.Sprintf("(mkNode %d %d %d %d %d %d %d)", n.ID, n.Ent, n.Cons, n.P2P, n.VRF, n.TLS, n.Exp)
+	return fmt.Sprintf("(mkNode %d %d %d %d %d %d %d %d %s)", n.ID, n.Ent, n.Cons, n.P2P, n.VRF, n.TLS, n.Exp, roles(n), ints(n.Rts))
 }
 
 func coqOp(o Op) string {
@@ -689,6 +1012,14 @@ func coqOp(o Op) string {
 		return fmt.Sprintf("TRegNode %d %s %s %s", o.Txs, coqNode(o.Node), ints(o.Signers), coqout.Bool(o.SigOK))
 	case "epoch":
 		return fmt.Sprintf("TEpoch %d", o.Epoch)
+	case "regrt":
+		wl := "None"
+		if o.Runtime.HasWL {
+			wl = "(Some " + ints(o.Runtime.WL) + ")"
+		}
+		return fmt.Sprintf("TRegRuntime %d (mkRt %d %d %d %d %s)", o.Caller, o.Runtime.ID, o.Runtime.Ent, o.Runtime.Kind, o.Runtime.Gov, wl)
+	case "suspendrt":
+		return fmt.Sprintf("LSuspendRt %d", o.Rt)
 	}
 	panic("unknown op")
 }
@@ -784,6 +1115,8 @@ func runCase(c Case) (res runResult) {
 
 // ---------- generation ----------
 func pick(r *prng.R, l []int) int { return l[r.Intn(len(l))] }
+
+func pick2(r *prng.R, l [][]int) []int { return append([]int{}, l[r.Intn(len(l))]...) }
 
 func rng(lo, hi int) []int {
 	var l []int
@@ -902,6 +1235,126 @@ func genTx(r *prng.R) Case {
 			c.Ops = append(c.Ops, regEnt(e))
 		}
 	}
+	shRts := map[int]*RtD{}
+	acctOf := func(d *RtD) int {
+		switch d.Gov {
+		case 1:
+			return 2 * d.Ent
+		case 2:
+			return 2*d.ID + 1
+		}
+		return -1
+	}
+	randWL := func(d *RtD) {
+		d.HasWL, d.WL = false, nil
+		if r.Chance(35) {
+			d.HasWL = true
+			d.WL = []int{}
+			for e := 1; e <= nEnts; e++ {
+				if r.Chance(65) {
+					d.WL = append(d.WL, e)
+				}
+			}
+		}
+	}
+	regRt := func(id int) Op {
+		var d RtD
+		caller := 0
+		cur := shRts[id]
+		if cur == nil {
+			d = RtD{ID: id, Ent: r.Range(1, nEnts), Kind: 1, Gov: 1}
+			if id >= 3 {
+				d.Kind = 2
+			}
+			if r.Chance(6) {
+				d.Kind = 3 - d.Kind
+			}
+			switch x := r.Intn(100); {
+			case x < 22:
+				d.Gov = 2
+			case x < 26:
+				d.Gov = 3
+			case x < 28:
+				d.Gov = pick(r, []int{0, 4})
+			}
+			randWL(&d)
+			caller = acctOf(&d)
+		} else {
+			d = *cur
+			d.WL = append([]int{}, cur.WL...)
+			switch x := r.Intn(100); {
+			case x < 25:
+				d.Ent = 1 + (cur.Ent-1+r.Range(1, nEnts-1))%nEnts
+			case x < 37:
+				d.Gov = 2
+			case x < 45:
+				d.Gov = 3 - cur.Gov
+			case x < 48:
+				d.Kind = 3 - d.Kind
+			case x < 52:
+				d.Gov = 3
+			case x < 80:
+				randWL(&d)
+			}
+			caller = acctOf(cur)
+		}
+		switch x := r.Intn(100); {
+		case x < 6:
+			caller = 2 * r.Range(1, poolSize)
+		case x < 10:
+			caller = 2*r.Range(1, nRts) + 1
+		case x < 14:
+			caller = 2 * d.Ent // the NEW owner signs (wrong when the owner changes)
+		}
+		if caller < 0 {
+			caller = 2 * d.Ent
+		}
+		ok := (d.Kind == 1 && id < 3 || d.Kind == 2 && id >= 3) && (d.Gov == 1 || d.Gov == 2 && d.Kind == 1)
+		if cur != nil {
+			ok = ok && cur.Kind == d.Kind && (cur.Gov == d.Gov || cur.Gov == 1 && d.Gov == 2) && caller == acctOf(cur)
+		} else {
+			ok = ok && caller == acctOf(&d)
+		}
+		if ok {
+			nd := d
+			shRts[id] = &nd
+		}
+		return Op{K: "regrt", Caller: caller, Runtime: &d}
+	}
+	for id := 1; id <= nRts; id++ {
+		if r.Chance(88) {
+			c.Ops = append(c.Ops, regRt(id))
+		}
+	}
+	// role / runtime profile of a new node descriptor
+	profile := func(d *NodeD) {
+		switch x := r.Intn(100); {
+		case x < 42:
+			d.Roles, d.Rts = 8, nil
+		case x < 62:
+			d.Roles, d.Rts = 1, pick2(r, [][]int{{1}, {2}, {1, 2}, {2, 1}})
+		case x < 70:
+			d.Roles, d.Rts = 9, pick2(r, [][]int{{1}, {2}, {1, 2}})
+		case x < 75:
+			d.Roles, d.Rts = 2, []int{r.Range(1, 2)}
+		case x < 83:
+			d.Roles, d.Rts = 4, []int{3}
+		case x < 86:
+			d.Roles, d.Rts = 1, []int{3}
+		case x < 89:
+			d.Roles, d.Rts = 8, []int{1}
+		case x < 92:
+			d.Roles, d.Rts = pick(r, []int{1, 2, 4, 32}), nil
+		case x < 94:
+			d.Roles, d.Rts = 1, []int{1, 1}
+		case x < 96:
+			d.Roles, d.Rts = -1, nil
+		case x < 98:
+			d.Roles, d.Rts = 5, []int{1, 3}
+		default:
+			d.Roles, d.Rts = 1, []int{4}
+		}
+	}
 	n := r.Range(6, 28)
 	for len(c.Ops) < n {
 		x := r.Intn(100)
@@ -921,13 +1374,11 @@ func genTx(r *prng.R) Case {
 			if !owns {
 				delete(entLists, t)
 			}
-		case x < 18:
-			k := "lsetrt"
-			if r.Chance(50) {
-				k = "lrmrt"
-			}
-			c.Ops = append(c.Ops, Op{K: k, Ent: r.Range(1, nEnts), Rt: r.Range(1, 2)})
-		case x < 33:
+		case x < 25:
+			c.Ops = append(c.Ops, regRt(r.Range(1, nRts)))
+		case x < 29:
+			c.Ops = append(c.Ops, Op{K: "suspendrt", Rt: r.Range(1, nRts)})
+		case x < 42:
 			sh.epoch += uint64(pick(r, []int{1, 1, 1, 2, 2, 3, 4, 6}))
 			c.Ops = append(c.Ops, Op{K: "epoch", Epoch: sh.epoch})
 			for id, nd := range sh.nodes {
@@ -984,6 +1435,22 @@ func genTx(r *prng.R) Case {
 				}
 				ks := freshKeys(r, sh, 4, nil)
 				d = NodeD{ID: id, Ent: ent, Cons: ks[0], P2P: ks[1], VRF: ks[2], TLS: ks[3]}
+				profile(&d)
+			}
+			if cur := sh.nodes[id]; cur != nil {
+				d.Roles, d.Rts = cur.Roles, append([]int{}, cur.Rts...)
+				switch x := r.Intn(100); {
+				case x < 6: // one more runtime
+					d.Rts = append(d.Rts, r.Range(1, nRts))
+				case x < 11: // drop a runtime (not allowed while the node is active)
+					if len(d.Rts) > 0 {
+						d.Rts = d.Rts[1:]
+					}
+				case x < 15: // more roles
+					d.Roles |= pick(r, []int{1, 2, 8})
+				case x < 19: // disjoint roles (downgrade)
+					profile(&d)
+				}
 			}
 			d.Exp = sh.epoch + uint64(pick(r, []int{1, 1, 2, 2, 3, 4, 5}))
 			if r.Chance(4) {
@@ -1113,7 +1580,23 @@ func fixedCases() []Case {
 		return Case{Layer: "tx", Ops: []Op{ent, entB, reg(9, 10, 11, 2), {K: "epoch", Epoch: at}, second,
 			{K: "epoch", Epoch: at + 9}, {K: "deregent", Txs: 1}, {K: "deregent", Txs: 2}}}
 	}
+	rtop := func(caller, id, e, kind, gov int) Op {
+		return Op{K: "regrt", Caller: caller, Runtime: &RtD{ID: id, Ent: e, Kind: kind, Gov: gov}}
+	}
+	cnode := func(rts []int, exp uint64) Op {
+		d := &NodeD{ID: 4, Ent: 1, Cons: 8, P2P: 9, VRF: 10, TLS: 11, Exp: exp, Roles: 1, Rts: rts}
+		return Op{K: "regnode", Txs: 4, Node: d, Signers: []int{4, 9, 8, 11, 10}, SigOK: true}
+	}
 	return []Case{
+		// runtime owner change: the claim and the runtime-by-entity entry move from entity 1 to entity 2
+		{Layer: "tx", Ops: []Op{ent, entB, rtop(2, 1, 1, 1, 1), {K: "deregent", Txs: 1}, rtop(4, 1, 2, 1, 1), rtop(2, 1, 2, 1, 1),
+			{K: "deregent", Txs: 1}, {K: "deregent", Txs: 2}}},
+		// entity -> runtime governance; afterwards only the runtime itself may update; back is forbidden
+		{Layer: "tx", Ops: []Op{ent, rtop(2, 1, 1, 1, 1), rtop(2, 1, 1, 1, 2), rtop(2, 1, 1, 1, 2), rtop(3, 1, 2, 1, 2), rtop(3, 1, 2, 1, 1),
+			rtop(7, 3, 1, 2, 2), rtop(2, 3, 1, 2, 1), rtop(2, 2, 1, 1, 3)}},
+		// suspension; a compute node registering for the runtime resumes it; dropping a runtime while active is refused
+		{Layer: "tx", Ops: []Op{ent, rtop(2, 1, 1, 1, 1), rtop(2, 2, 1, 1, 1), {K: "suspendrt", Rt: 1}, rtop(2, 1, 1, 1, 1), cnode([]int{1, 2}, 3),
+			cnode([]int{2}, 4), {K: "epoch", Epoch: 4}, cnode([]int{2}, 6), {K: "epoch", Epoch: 12}}},
 		moved(regAs(2, 8, 7), 3),  // expired, within debonding: other entity
 		moved(regAs(1, 12, 7), 3), // expired, within debonding: other consensus key
 		moved(regAs(2, 12, 7), 4), // both
@@ -1163,7 +1646,7 @@ func main() {
 	initPool()
 	hdr := "From Verif Require Import Lib.Base Registry.Model Gen.RegistryConsts.\n"
 	wb := coqout.NewWriter(*out, hdr, "run_case_b setnode_removals_first", "list_eqb obs_eqb", 60)
-	sum := coqout.NewSummary("seeded histories over a pool of 24 keys (1-3 entities, 4-7 node ids, sub-keys mostly 8-24): layer tx = RegisterEntity/DeregisterEntity/RegisterNode transactions through ExecuteTx (transaction signer right/wrong, descriptor signatures full/one missing/one extra/one wrong/invalid) and epoch transitions through BeginBlock; layer state = SetNode/RemoveNode/SetEntity/SetRuntimeOwner called directly; node updates renew, rotate, swap, 3-cycle or take over P2P/VRF/TLS (state layer: also consensus) keys; non-trivial = the history contains an accepted node update that changed at least one sub-key; distinct = distinct operation lists")
+	sum := coqout.NewSummary("seeded histories over a pool of 24 keys (1-3 entities, 4-7 node ids, sub-keys mostly 8-24): layer tx = RegisterEntity/DeregisterEntity/RegisterNode/RegisterRuntime transactions through ExecuteTx (runtimes 1-3, entity or runtime governance, callers right/wrong incl. runtime messages through ExecuteMessage, owner and governance changes, entity whitelists, suspension by the environment and resumption by node registration; node descriptors with roles validator/compute/observer/key manager and runtime lists) (transaction signer right/wrong, descriptor signatures full/one missing/one extra/one wrong/invalid) and epoch transitions through BeginBlock; layer state = SetNode/RemoveNode/SetEntity/SetRuntimeOwner called directly; node updates renew, rotate, swap, 3-cycle or take over P2P/VRF/TLS (state layer: also consensus) keys; non-trivial = the history contains an accepted node update that changed at least one sub-key; distinct = distinct operation lists")
 	var cases []Case
 	if *replay != "" {
 		b, err := os.ReadFile(*replay)
